@@ -159,6 +159,10 @@ def run_scenario(run: Run, scen: dict, rng: random.Random):
                                           f"after the history {history} the compiled {who} no longer matches its symbolic circuit under the operand's current parameter values: {mm} {mm.detail}")
                             return
             except Exception as e:  # noqa: BLE001
+                if "GreaterThan(lower_bound=0.0)" in str(e) or "to satisfy the constraint" in str(e):
+                    # the optimiser has left the parameter domain (negative standard deviation): the history ends
+                    run.feature("history_left_domain", True)
+                    return
                 run.violation("history-crash", dict(scen, history=history), f"step {kind} raised {type(e).__name__}: {e}")
                 return
     finally:
